@@ -6,6 +6,9 @@
 // the result.  Numeric-argument alphabets are applied to every scalar
 // parameter of every constructor / operation.  A crash, sanitizer report,
 // escaped exception or watchdog timeout is an outcome of the case.
+#include <sys/wait.h>
+#include <unistd.h>
+
 #include <climits>
 #include <cmath>
 #include <limits>
@@ -285,23 +288,42 @@ static std::vector<ArgCase> argCases(bool thorough) {
   for (auto& i : I) {
     int n = i.second;
     const std::string v = i.first;
-    if (!thorough && (n == INT_MAX || n == 100000)) {
-      // huge counts are the thorough tier's business (they legitimately take long or allocate gigabytes)
-    }
-    M("Sphere(1,segs=" + v + ")", [n] { return Manifold::Sphere(1, n); });
-    M("Cylinder(segs=" + v + ")", [n] { return Manifold::Cylinder(1, 1, 1, n); });
-    M("Extrude(nDiv=" + v + ")", [n, sq] { return Manifold::Extrude(sq, 1, n); });
-    M("Revolve(segs=" + v + ")", [n, rv] { return Manifold::Revolve(rv, n); });
+    // A count that IS the amount of work or memory asked for (segments, divisions, property channels) is a legitimate
+    // request when it is huge: 2^31 segments end in an allocation failure or hours of work, which is resource exhaustion,
+    // not malformed input.  Those APIs get every value except INT_MAX and 100000.  Where the value enters int arithmetic
+    // before anything is allocated (Sphere's (n+3)/4, Refine's n*n, channel index + 3) the huge values stay.
+    const bool huge = n == INT_MAX || n == 100000;
+    if (n != 100000) M("Sphere(1,segs=" + v + ")", [n] { return Manifold::Sphere(1, n); });
+    if (!huge) M("Cylinder(segs=" + v + ")", [n] { return Manifold::Cylinder(1, 1, 1, n); });
+    if (!huge) M("Extrude(nDiv=" + v + ")", [n, sq] { return Manifold::Extrude(sq, 1, n); });
+    if (!huge) M("Revolve(segs=" + v + ")", [n, rv] { return Manifold::Revolve(rv, n); });
     M("Refine(" + v + ")", [n] { return Manifold::Cube().Refine(n); });
     M("CalculateNormals(idx=" + v + ")", [n] { return Manifold::Cube().CalculateNormals(n); });
     M("CalculateCurvature(" + v + ",1)", [n] { return Manifold::Cube().CalculateCurvature(n, 1); });
-    M("SetProperties(n=" + v + ")", [n] { return Manifold::Cube().SetProperties(n, nullptr); });
+    if (!huge) M("SetProperties(n=" + v + ")", [n] { return Manifold::Cube().SetProperties(n, nullptr); });
     M("SmoothByNormals(" + v + ")", [n] { return Manifold::Cube().CalculateNormals(0).SmoothByNormals(n); });
     Q("GetMeshGL(normalIdx=" + v + ")", [n] { (void)Manifold::Cube().CalculateNormals(0).GetMeshGL64(n); });
-    Q("ReserveIDs(" + v + ")", [n] { (void)Manifold::ReserveIDs((uint32_t)n); });
-    Q("CS::Circle(segs=" + v + ")", [n] { (void)CrossSection::Circle(1, n).Area(); });
-    Q("CS::Offset(segs=" + v + ")", [n] { (void)CrossSection::Square({1, 1}).Offset(0.2, CrossSection::JoinType::Round, 2, n).Area(); });
-    Q("Quality::SetCircularSegments(" + v + ")", [n] {
+    // ReserveIDs moves a process-wide counter: run it in a child process so that the cases this worker runs afterwards
+    // do not inherit a counter near the end of its range; the child also uses the IDs it reserved in one Boolean.
+    A.push_back({"ReserveIDs(" + v + ") then Boolean", [n, v](Ctx& c) {
+                   c.describe("ReserveIDs(" + v + ") then Boolean");
+                   fflush(nullptr);
+                   pid_t pid = fork();
+                   if (pid == 0) {
+                     (void)Manifold::ReserveIDs((uint32_t)n);
+                     Manifold r = Manifold::Cube() + Manifold::Sphere(0.7, 8).Translate({0.5, 0.5, 0.5});
+                     std::string why = checkManifoldC01(r);
+                     _exit(why.empty() ? 0 : 3);
+                   }
+                   int st = 0;
+                   waitpid(pid, &st, 0);
+                   if (WIFEXITED(st) && WEXITSTATUS(st) == 0) return std::string();
+                   if (WIFEXITED(st) && WEXITSTATUS(st) == 3) return std::string("the Boolean after ReserveIDs is not a valid manifold");
+                   return std::string("the process died (sanitizer report or signal) in ReserveIDs or in the Boolean that followed; status ") + std::to_string(st);
+                 }});
+    if (!huge) Q("CS::Circle(segs=" + v + ")", [n] { (void)CrossSection::Circle(1, n).Area(); });
+    if (!huge) Q("CS::Offset(segs=" + v + ")", [n] { (void)CrossSection::Square({1, 1}).Offset(0.2, CrossSection::JoinType::Round, 2, n).Area(); });
+    if (!huge) Q("Quality::SetCircularSegments(" + v + ")", [n] {
       Quality::SetCircularSegments(n);
       (void)Manifold::Cylinder(1, 1).NumTri();
       (void)Manifold::Sphere(1).NumTri();
